@@ -377,7 +377,12 @@ def o5_union(ck):
     if good:
         a = [tb.operand(x) for x in ext[0]["args"]]
         recv = a[0]
-        good = a[1] == ("param", 3) and is_call(recv, "or_insert_with") and is_call(recv[2][0], "::entry") and recv[2][0][2] == (("field", ("param", 1), "table"), ("param", 2))
+        # the moves: the parameter itself, or an element-preserving view of it (iter().copied() / cloned() / into_iter())
+        src = a[1]
+        while src[0] == "call" and src[1].split("::")[-1] in ("copied", "cloned", "iter", "into_iter", "deref", "to_vec", "to_owned") and src[2]:
+            src = src[2][0]
+        getter = is_call(recv, "or_insert_with") or is_call(recv, "or_default") or is_call(recv, "or_insert")
+        good = src == ("param", 3) and getter and is_call(recv[2][0], "::entry") and recv[2][0][2] == (("field", ("param", 1), "table"), ("param", 2))
     ck.req(good, "O5.union", "Book::append", ap.where(), "append is not table.entry(hash).or_insert_with(HashSet::new).extend(moves)")
     adt = ck.adt(BOOK, "O5")
     f = adt["variants"][0]["fields"]
